@@ -160,6 +160,26 @@ def gen(ctx, rng, n):
         cases.append({"routine": "legendre", "cx": False, "a": fp(a), "b": fp(b), "tol": fp(10.0 ** (-rng.uniform(10, 11))), "n": 40,
                       "budget": 2000000, "keep": 6000, "f": {"k": "exp", "c": [c11.cz(0.0)], "p": [fp(rng.uniform(1, 10)), fp(1.0)]},
                       "mustok": True, "work": False})
+    # Gauss-Laguerre on polynomials of degree 18-19, which only the last three of its twelve rules integrate exactly (the
+    # whole table is needed); Gauss-Chebyshev (both kinds) on fast exponentials at tolerances near 1e-11 and on polynomials of
+    # magnitude 1e-3 at tolerances of 1e-4..1e-5 - where an estimate compared on the wrong scale (its square, say) stops early
+    for k in range(max(6, n // 100)):
+        deg = rng.randint(18, 19)
+        co = [c11.cz(rng.uniform(0.5, 2) * rng.choice([-1, 1]) / math.factorial(q), 0.0) for q in range(deg + 1)]
+        cases.append({"routine": "laguerre", "cx": False, "a": fp(0.0), "b": fp(1.0), "tol": fp(10.0 ** (-rng.uniform(4, 6))), "n": 40,
+                      "budget": 2000000, "keep": 6000, "f": {"k": "poly", "c": co, "p": []}, "mustok": True, "work": False})
+    for k in range(max(12, n // 50)):
+        routine = rng.choice(["chebyshev", "chebyshev_second"])
+        if k % 2 == 0:
+            c = rng.uniform(3.0, 5.0) * rng.choice([-1, 1])
+            f = {"k": "exp", "c": [c11.cz(0.0)], "p": [fp(rng.uniform(0.5, 2) * math.exp(-abs(c))), fp(c)]}
+            tol = 10.0 ** (-rng.uniform(10, 11))
+        else:
+            deg = rng.randint(2, 8)
+            f = {"k": "poly", "c": [c11.cz(1e-3 * rng.uniform(0.5, 2) * rng.choice([-1, 1]), 0.0) for _ in range(deg + 1)], "p": []}
+            tol = 10.0 ** (-rng.uniform(4, 5))
+        cases.append({"routine": routine, "cx": False, "a": fp(0.0), "b": fp(1.0), "tol": fp(tol), "n": 40,
+                      "budget": 2000000, "keep": 6000, "f": f, "mustok": True, "work": False})
     # tanh-sinh on several periods of a sine or on an asymmetric power: the coarse levels are far off and only the
     # level-to-level convergence heuristic decides when to stop (cheap runs, many of them)
     for k in range(n):
